@@ -24,7 +24,7 @@ for sd in ARGS:
     out = {"property": pid, "summary": meta.get("summary"), "needs": meta.get("needs"),
            "demo_file": "%stests/%s.rs (copy demo.rs there)" % ("temporal_capi/" if "-p temporal_capi" in v["demo_cmd"] else "",
                                                                   v["demo_cmd"].split("--test ")[1].split()[0]),
-           "demo_cmd": v["demo_cmd"], "round": 2 if OFFSET else 1, "author": "fresh sub-agent given only the property text and a scratch worktree",
+           "demo_cmd": v["demo_cmd"], "round": (1 if not OFFSET else 2 if OFFSET == 3 else 3), "author": "fresh sub-agent given only the property text and a scratch worktree",
            "confirmed_by_me": {"base_commit": v["head"], "scratch_worktree": "/tmp/seedv (removed afterwards)",
                                "ran": ["git apply patch.diff", "cargo build --workspace --offline",
                                        "cargo build --offline --features compiled_data", v["demo_cmd"] + "  (with patch: fails)",
